@@ -107,6 +107,44 @@ def _snap(v):
     return v
 
 
+def _val_key(v):
+    if v is None or isinstance(v, (str, int, float, bool)):
+        return ('v', type(v).__name__, v)
+    if isinstance(v, tuple):
+        return ('t',) + tuple(_val_key(x) for x in v)
+    return ('o', id(v))
+
+
+def heap_snapshot(objs):
+    """identity-level picture of the objects reachable before the call: attribute -> value (primitive by value, object
+    by identity), list elements, dict items"""
+    snap = {}
+    for i, o in objs.items():
+        if isinstance(o, list):
+            snap[i] = ('list', [_val_key(x) for x in o])
+        elif isinstance(o, dict):
+            snap[i] = ('dict', [(k, _val_key(x)) for k, x in o.items()])
+        elif hasattr(o, '__dict__') and type(o).__module__.startswith('pydbml'):
+            snap[i] = ('obj', {k: _val_key(x) for k, x in vars(o).items()})
+    return snap
+
+
+def heap_diff(before, objs):
+    """first difference between the snapshot and the same objects now: None or a description"""
+    now = heap_snapshot(objs)
+    for i, b in before.items():
+        a = now.get(i)
+        if a == b:
+            continue
+        o = objs[i]
+        if b[0] == 'obj':
+            for k in sorted(set(b[1]) | set(a[1])):
+                if b[1].get(k, '<absent>') != a[1].get(k, '<absent>'):
+                    return f'attribute {k!r} of a pre-existing {type(o).__name__} was written'
+        return f'a pre-existing {type(o).__name__} ({b[0]}) was changed'
+    return None
+
+
 # ------------------------------------------------------------------------------------------ pools
 def reachable(roots, limit=20000):
     seen = {}
@@ -421,6 +459,13 @@ def run_trial(target: str, seed: int) -> Optional[Dict[str, Any]]:
         except Exception as e:
             return None
         raise_due.append((exc, name, due))
+    maybe_due = []
+    for exc, name, f in getattr(con, 'maybe', []):
+        try:
+            pres, post, cn, pn = compile_clause(f)
+            maybe_due.append((exc, name, bool(post(*[args[n] for n in pn], []))))
+        except Exception:
+            return None
     olds = {}
     for name, f in con.ensures:
         pres, post, cn, pn = compile_clause(f)
@@ -430,6 +475,7 @@ def run_trial(target: str, seed: int) -> Optional[Dict[str, Any]]:
             olds[name] = None
     pre_objs = reachable(list(args.values()))       # kept alive: CPython reuses ids of freed objects
     speclib._NATIVE_PRE_IDS = set(pre_objs.keys())
+    before = heap_snapshot(pre_objs) if con.pure else None
     try:
         try:
             result = fn(*[args[n] for n in names])
@@ -437,6 +483,13 @@ def run_trial(target: str, seed: int) -> Optional[Dict[str, Any]]:
         except Exception as e:          # the code under test
             raised = e
             result = None
+        if before is not None:
+            # the contract says `pure`: nothing that existed before the call may have been written (the frame clause
+            # the solver proves for all inputs, evaluated here on this input), on normal and exceptional exits alike
+            d = heap_diff(before, pre_objs)
+            if d is not None:
+                return dict(recipe, clause='frame.pure', args=argdesc,
+                            message=f'the contract declares the function pure, but {d}')
         if raised is not None:
             if isinstance(raised, TypeError) and '__str__ returned non-string' in str(raised):
                 return None        # formatting an error message for an unnamed object (assumption A-MSG)
@@ -444,6 +497,12 @@ def run_trial(target: str, seed: int) -> Optional[Dict[str, Any]]:
             if declared:
                 if not any(due for _, _, due in declared):
                     return dict(recipe, clause=declared[0][1] + '.only-when', args=argdesc,
+                                message=f'raised {type(raised).__name__}: {raised} although its condition does not hold')
+                return None
+            mb = [(name, due) for exc, name, due in maybe_due if isinstance(raised, exc)]
+            if mb:
+                if not any(due for _, due in mb):
+                    return dict(recipe, clause=mb[0][0] + '.only-when', args=argdesc,
                                 message=f'raised {type(raised).__name__}: {raised} although its condition does not hold')
                 return None
             if con.allowed and isinstance(raised, con.allowed):
